@@ -2,6 +2,7 @@
    Input line:  <id> <U hex> <op>;<op>;...      ops: W:<hexbytes> R:<hex> SS:<hex> SC:<shex> SE:<shex> P:<hex>
    Output line: <id> ac|std <ret>|<pos>|<len>|<hexcontents>;...                                   *)
 open Model
+type string = Stdlib.String.t
 open Util
 
 let parse_op (s : string) : op =
